@@ -744,6 +744,11 @@ def _group_axis(ck: Checker, prog: Program, q: str):
                      f"the group's spectra are smoothed against {got}; expected {want} (the axis of the group's own time step)", loc=f.loc(sm[0]))
 
 
+def _baseline():
+    from ..normalize import load_baseline
+    return load_baseline()
+
+
 def _r4_guard(ck: Checker, prog: Program):
     from ..pathtable import PathTable, literals, same_rel, negate
     f = prog.func("processing.check_nyquist_frequency")
@@ -785,6 +790,25 @@ def _r4_guard(ck: Checker, prog: Program):
         ck.ok(P + "R4", d.qualname, norm_key(cs[0]))
     else:
         ck.violation(P + "R4", d.qualname, "Nyquist guard", "diffuse-field processing does not guard the largest retained time step", loc=d.loc())
+    # sweep: the guard is only ever applied to time steps that survived the dissimilar-time-step policy - a call in a function
+    # that has not applied the policy (before the call) refuses requests because of recordings that would have been discarded
+    n_sites = 0
+    for g in prog.funcs.values():
+        if g.module.name.startswith("test") or g is f:
+            continue
+        for c in calls_in(g.node, "check_nyquist_frequency"):
+            n_sites += 1
+            preps = [x for x in calls_in(g.node, "prepare_records_with_inconsistent_dt")]
+            before = [x for x in preps if (x.lineno, x.col_offset) < (c.lineno, c.col_offset)]
+            if before:
+                ck.ok(P + "R4", g.qualname, "guard applied after the time-step policy", nontrivial=False)
+            elif g.qualname not in _baseline():
+                raise AnalysisError(f"{g.qualname}: a helper outside the pinned vocabulary applies the Nyquist guard; which recordings it sees is not decided")
+            else:
+                ck.violation(P + "R4", g.qualname, norm_key(c, 90),
+                             f"`{norm_key(c, 80)}` tests the Nyquist frequency of recordings before the dissimilar-time-step policy has been applied: under the "
+                             f"keeping policies a request the retained recordings resolve is refused because of a recording that would be discarded", loc=g.loc(c))
+    ck.floor(P + "R4", n_sites, 4, "call sites of the Nyquist guard")
 
 
 def _validation(ck: Checker, prog: Program):
